@@ -21,8 +21,9 @@ type SubData struct {
 
 // ReqData describes a request or response value.
 type ReqData struct {
-	// Kind: 0 value-typed (Req / Resp), 1 pointer-typed (*Req / *Resp), 2 nil,
-	// 3 value-typed NReq / NResp (references only inside nested structs and an array), 4 *NReq / *NResp.
+	// Kind: 0 value-typed (Req / Resp), 1 pointer-typed (*Req / *Resp), 2 nil, and the "references only below a struct /
+	// array field" types: 3 N1Req, 4 *N1Req (one level down), 5 N2Req, 6 *N2Req (two levels down), 7 N3Req, 8 *N3Req
+	// (inside array elements); responses likewise (N1Resp ...).
 	Kind  int
 	Text  string
 	Num   int64
@@ -44,14 +45,14 @@ type ReqData struct {
 	// 4 map[string]any{Sub, int, []string}, 5 []Sub — all made from ExtraSub.
 	Extra    int
 	ExtraSub SubData
-	// Nest is used by the nested request kinds (3 value-typed NReq, 4 *NReq) only.
+	// Nest is used by the kinds 5-8 only (kinds 3/4 use Inner).
 	Nest      NestData
 	Hidden    string // secure-tagged
 	HiddenRaw []byte // secure-tagged
 }
 
-// NestData describes the nested parts of an NReq / NResp (kinds 3 and 4): Mid (with its Leaf) and the Pair array.
-// NReq.Text, Num and Inner come from the ReqData fields of the same name.
+// NestData describes the nested part of N2Req (Mid with its Leaf; kinds 5/6) and of N3Req (the Pair array; kinds 7/8).
+// Text and Num (and Inner for N1Req, kinds 3/4) come from the ReqData fields of the same name.
 type NestData struct {
 	Title string
 	Rank  int
@@ -191,8 +192,8 @@ var (
 	genOpt    = rapid.SliceOfN(genShort, 0, 2)
 
 	// request kinds an action may use: in a sequence (non-check plugins) and in a checks group (check plugins)
-	actionReqKinds = []int{reqValue, reqPointer, reqNestValue, reqNestPointer}
-	checkReqKinds  = []int{reqValue, reqPointer, reqNil, reqNestValue, reqNestPointer}
+	actionReqKinds = []int{reqValue, reqPointer, reqN1Value, reqN1Ptr, reqN2Value, reqN2Ptr, reqN3Value, reqN3Ptr}
+	checkReqKinds  = []int{reqValue, reqPointer, reqNil, reqN1Value, reqN1Ptr, reqN2Value, reqN2Ptr, reqN3Value, reqN3Ptr}
 )
 
 // genName draws a string that is valid as a name/description (non-blank after TrimSpace).
@@ -252,7 +253,7 @@ func genSubs(t *rapid.T, label string) []SubData {
 	return out
 }
 
-func genNest(t *rapid.T, label string) NestData {
+func genNestMid(t *rapid.T, label string) NestData {
 	n := NestData{
 		Title: genShort.Draw(t, label+".title"),
 		Rank:  rapid.IntRange(0, 9).Draw(t, label+".rank"),
@@ -274,9 +275,6 @@ func genNest(t *rapid.T, label string) NestData {
 		s := genSub(t, label+".ptr")
 		n.Ptr = &s
 	}
-	for i := range n.Pair {
-		n.Pair[i] = genSub(t, fmt.Sprintf("%s.pair%d", label, i))
-	}
 	return n
 }
 
@@ -288,9 +286,17 @@ func genReq(t *rapid.T, label string, kind int) ReqData {
 	}
 	r.Text = genName(t, label+".text", "t")
 	r.Num = rapid.Int64Range(-5, 1<<40).Draw(t, label+".num")
-	if kind == reqNestValue || kind == reqNestPointer {
+	switch kind {
+	case reqN1Value, reqN1Ptr:
 		r.Inner = genSub(t, label+".inner")
-		r.Nest = genNest(t, label+".nest")
+		return r
+	case reqN2Value, reqN2Ptr:
+		r.Nest = genNestMid(t, label+".nest")
+		return r
+	case reqN3Value, reqN3Ptr:
+		for i := range r.Nest.Pair {
+			r.Nest.Pair[i] = genSub(t, fmt.Sprintf("%s.pair%d", label, i))
+		}
 		return r
 	}
 	r.Flag = rapid.Bool().Draw(t, label+".flag")
